@@ -580,9 +580,14 @@ func TestC04(t *testing.T) {
 	rapid.Check(t, func(t *rapid.T) {
 		sch := genSchema(t, SchemaCfg{Key: 1, MinCols: 2, MaxCols: 5,
 			Kinds: []Kind{KInt, KInt16, KInt32, KInt64, KUint, KUint16, KUint32, KUint64, KFloat32, KFloat64, KBool, KString, KEnum, KBool, KString}})
-		mc := NewMachine("C04", sch, column.Options{})
+		slog := &recLogger{}
+		mc := NewMachine("C04", sch, column.Options{Writer: slog})
 		defer mc.Close()
 		defer mc.Guard(t)
+		// a stream follower: the same queries must give the same answers there
+		follower := newCollection(sch, column.Options{})
+		defer follower.Close()
+		fed := 0
 		cfg := TxnCfg{Prop: "C04", MaxSteps: 8, Deletes: true, Inserts: true, Merges: true, Direct: true, SafeValue: c04SafeValue,
 			NoStoreOnDel: KFActive("f11-store-and-delete-same-txn"), NoOpAfterLenMerge: KFActive("f15-difflen-merge-reorder")}
 		f13 := KFActive("f13-aggregates-ignore-presence")
@@ -591,9 +596,18 @@ func TestC04(t *testing.T) {
 		queries, nontrivial := 0, 0
 		var sample []string
 
-		query := func(t *rapid.T) {
+		queryOn := func(t *rapid.T, target *column.Collection, where string) {
 			ops := mc.genQuery(t)
 			ops = mc.sanitizeQuery(ops, f14, f25, "C04")
+			if rapid.IntRange(0, 7).Draw(t, "bare") == 0 {
+				ops = nil // no filter at all: Count and Range over the live rows
+			}
+			// an interfering transaction (a nested collection-level call) between Count and Range: the
+			// selection is a snapshot, Range must still visit exactly the rows Count counted
+			interfere, victim := uint32(0), false
+			if target == mc.C && len(mc.M.Rows) > 0 && rapid.IntRange(0, 3).Draw(t, "interfere") == 0 {
+				interfere, victim = pickLive(t, mc.M, mc.Recent, "victim")
+			}
 			var parts []string
 			for _, o := range ops {
 				parts = append(parts, o.String())
@@ -612,15 +626,22 @@ func TestC04(t *testing.T) {
 			count := -1
 			aggs := map[int]aggResult{}
 			var readErr string
-			mc.C.Query(func(txn *column.Txn) error {
+			target.Query(func(txn *column.Txn) error {
 				for _, o := range ops {
 					mc.applySUT(txn, o)
 				}
 				count = txn.Count()
+				if victim {
+					mc.C.DeleteAt(interfere)
+					mc.C.Insert(func(r column.Row) error { return errStep }) // and a failing insert: reserves and frees an offset
+				}
 				txn.Range(func(idx uint32) {
 					visited = append(visited, idx)
 					if txn.Index() != idx {
 						readErr = fmt.Sprintf("cursor is %d in the callback for row %d", txn.Index(), idx)
+					}
+					if victim && idx == interfere {
+						return // deleted meanwhile: still selected, its values are gone
 					}
 					// readers positioned on the row: compare one live column
 					for ci, cs := range sch.Cols {
@@ -634,7 +655,7 @@ func TestC04(t *testing.T) {
 					}
 				})
 				for ci, cs := range sch.Cols {
-					if mc.M.ColLive[ci] && cs.Kind.Numeric() && cs.Kind != KBool {
+					if !victim && mc.M.ColLive[ci] && cs.Kind.Numeric() && cs.Kind != KBool {
 						aggs[ci] = sutAggregates(txn, cs)
 					}
 				}
@@ -643,7 +664,14 @@ func TestC04(t *testing.T) {
 				}
 				return nil
 			})
-			what := "query " + desc
+			what := where + "query " + desc
+			if victim {
+				what += fmt.Sprintf(" [row %d deleted by another transaction between Count and Range]", interfere)
+				mc.noteDeleted(interfere, mc.M.Rows[interfere])
+				delete(mc.M.Rows, interfere)
+				mc.M.dirty()
+				mc.flag("interference-between-count-and-range")
+			}
 			got := map[uint32]bool{}
 			for i, off := range visited {
 				if i > 0 && visited[i-1] >= off {
@@ -689,7 +717,20 @@ func TestC04(t *testing.T) {
 					sample = append(sample, fmt.Sprintf("%s => %d of %d rows", desc, len(sel), len(mc.M.Rows)))
 				}
 			}
-			mc.logf("query %s => %d of %d rows", desc, len(sel), len(mc.M.Rows))
+			mc.logf("%squery %s => %d of %d rows", where, desc, len(sel), len(mc.M.Rows))
+		}
+		query := func(t *rapid.T) { queryOn(t, mc.C, "") }
+		followerQuery := func(t *rapid.T) {
+			for _, rc := range slog.Since(fed) {
+				cl := rc.Clone.Clone()
+				cl.ID = rc.ID
+				if err := follower.Replay(cl); err != nil {
+					mc.fail(t, "Replay of commit #%d on the stream follower: %v", rc.Seq, err)
+				}
+				fed++
+			}
+			mc.flag("query-on-stream-follower")
+			queryOn(t, follower, "on a collection that replays the change stream: ")
 		}
 
 		t.Repeat(map[string]func(*rapid.T){
@@ -697,9 +738,10 @@ func TestC04(t *testing.T) {
 			"query":       query,
 			"query2":      query,
 			"query3":      query,
+			"followerQ":   followerQuery,
 			"prefill":     mc.prefillAction,
 			"bulkDelete":  func(t *rapid.T) { mc.ActBulkDelete(t) },
-			"createIndex": func(t *rapid.T) { mc.ActCreateIndex(t) },
+			"createIndex": func(t *rapid.T) { mc.ActCreateIndex(t, follower) },
 		})
 		mc.CheckFull(t, false)
 		AddCounter("C04", "queries", int64(queries))
